@@ -500,6 +500,10 @@ extern int total_queries;
             if (_value->as_char.text != NULL) break; \
             FAIL(errlabel, CIF_INTERNAL_ERROR); \
         case CIF_NUMB_KIND: \
+            /* ensure that the value can safely be cleaned if not all of these can be retrieved: */ \
+            _value->as_numb.text = NULL; \
+            _value->as_numb.digits = NULL; \
+            _value->as_numb.su_digits = NULL; \
             _value->as_numb.quoted = (sqlite3_column_int(_stmt, _col_ofs + 1) ? CIF_QUOTED : CIF_NOT_QUOTED); \
             GET_COLUMN_STRING(_stmt, _col_ofs + 3, _value->as_numb.text, HANDLER_LABEL(errlabel)); \
             GET_COLUMN_BYTESTRING(_stmt, _col_ofs + 4, _value->as_numb.digits, HANDLER_LABEL(errlabel)); \
